@@ -1276,7 +1276,7 @@ func checkC20(h *History, sc *ScanCtx, r *Report) {
 		kinds := map[string]bool{}
 		for _, e := range rec.Events {
 			if e.Injected {
-				kinds[e.API] = true
+				kinds[e.API+":"+errClass(e)] = true
 			}
 		}
 		for k := range kinds {
@@ -1288,6 +1288,24 @@ func checkC20(h *History, sc *ScanCtx, r *Report) {
 	}
 	if rec.Crashed {
 		r.Covered(P, "crash-inside-scan")
+	}
+}
+
+// errClass names the kind of injected failure from what the caller saw.
+func errClass(e *sim.Event) string {
+	switch {
+	case e.Applied:
+		return "lost-reply"
+	case strings.Contains(e.Err, "not found"):
+		return "notfound"
+	case strings.Contains(e.Err, "modified"):
+		return "conflict"
+	case strings.Contains(e.Err, "Throttling") || strings.Contains(e.Err, "too many"):
+		return "throttle"
+	case strings.Contains(e.Err, "ValidationError"):
+		return "validation"
+	default:
+		return "server-error"
 	}
 }
 
